@@ -85,7 +85,7 @@ def build_coq(targets=None, timeout=3000):
 
 def build_model():
     """Extract the model and compile the OCaml driver. Returns path of the binary."""
-    vs = [os.path.join(COQ, f) for f in coq_files() if not f.startswith('Properties_') and not f.startswith('Proofs')]
+    vs = [os.path.join(COQ, f) for f in coq_files() if not f.startswith('Properties_')]
     glue = os.path.join(VERIF, 'harness', 'model_main.ml')
     key = _hash_files(vs + [glue, os.path.join(COQ, 'Extract.v')])
     outdir = os.path.join(BUILD, 'model', key)
